@@ -27,6 +27,7 @@ fn main() {
         "once-replay" => once::main(&rest),
         "watch-replay" => watch::replay(&rest),
         "watch-real" => watch::real(&rest),
+        "fs-replay" => fsreplay::main(&rest),
         "c08-stress" => stress::c08(&rest),
         "cache-replay" => replay::main(&rest),
         "rid-replay" => c18::replay(&rest),
